@@ -1415,21 +1415,29 @@ def replay(ctx, rp):
         fs = _supplement_case(q, c)
         return {"fails": bool(fs), "failures": fs}
     # which row of the offsets the library hands to which source follows the iteration order of a set
-    # of random UUIDs: it differs from process to process.  A failure that depends on WHICH draws
-    # leave the domain is re-observed until the recorded assignment comes up again (a new set of
-    # measurement objects each time; at most 6 assignments exist)
+    # of random UUIDs: it differs from process to process, and a failure may depend on it (WHICH
+    # draws leave the domain; whether set order and another order of the identifiers differ).  The
+    # case is therefore observed several times -- new measurement objects, hence new identifiers, each
+    # time -- until the recorded assignment has come up again and at least 8 observations were made
+    # (one source: a single observation); the replay fails when ANY observation fails (on a library
+    # that keeps the property every observation of the case passes)
     target = f.get("order")
-    for tries in range(60):
-        o = observe(q, c)
-        if not target or "exception" in o or o.get("order") == target:
-            break
-    ind = reference_check(c, o)
     # a model regenerated from a changed tree is not known to be correct: the proved reference tables
     # are used then
-    r = run(ctx, 1, None, cases=[c], obs=[o], ref=ctx.tables_changed(SECTIONS))
-    fails = bool(ind) or bool(r["failures"])
+    use_ref = ctx.tables_changed(SECTIONS)
+    seen_target = False
+    for tries in range(60):
+        o = observe(q, c)
+        ind = reference_check(c, o)
+        r = run(ctx, 1, None, cases=[c], obs=[o], ref=use_ref)
+        fails = bool(ind) or bool(r["failures"])
+        if fails:
+            break
+        seen_target = seen_target or not target or "exception" in o or o.get("order") == target
+        if seen_target and (len(o.get("order", [])) <= 1 or tries + 1 >= 8):
+            break
     return {"fails": fails, "independent_oracle": ind, "model_run": r["failures"],
-            "observations_until_recorded_row_order": tries + 1,
+            "observations": tries + 1,
             "impl": {k: (v if k != "samples" else "{} samples".format(len(v)))
                      for k, v in o.items() if k not in ("calls",)}}
 
